@@ -148,7 +148,7 @@ def ob_kernel_rate(ctx):
 
 
 # ---------------------------------------------------------------------- release scenarios
-def release_world(ctx, k, released_before=0, other=True, cap=None, real_kernel=False):
+def release_world(ctx, k, released_before=0, other=True, cap=None, real_kernel=False, pending=False):
     W = HubWorld(ctx, n_validators=1, n_delegations=1)
     I = W.I
     I.contracts_on = {'SignedInt::from_subtraction', 'Uint256*Decimal256'} if (MERGE_RATE or real_kernel) else set(CONTRACTS)
@@ -187,6 +187,11 @@ def release_world(ctx, k, released_before=0, other=True, cap=None, real_kernel=F
     st.add(W.batch_id == W.last_processed + k + 1)
     st.add(W.hub_balance >= W.prev_hub_balance)
     st.add(W.unbonding <= W.now)
+    W.pending = None
+    if pending:
+        # the caller also holds a not yet undelegated request in the open batch (its key sorts before or after the
+        # matured ones depending on the decimal texts of the ids)
+        W.pending = W.add_wait('open', user, W.batch_id)
     W.install()
     return W
 
@@ -206,9 +211,9 @@ def edge_free(W, I, st, arrived, expected_b, expected_s, k):
     return z3.And(z3.Or(S_b <= 0, k * S_b < E), z3.Or(S_s <= 0, k * S_s < E))
 
 
-def ob_release(k, released_before, cap=None, light=False, real_kernel=False):
+def ob_release(k, released_before, cap=None, light=False, real_kernel=False, pending=False):
     def ob(ctx):
-        W = release_world(ctx, k, released_before, cap=cap, real_kernel=real_kernel)
+        W = release_world(ctx, k, released_before, cap=cap, real_kernel=real_kernel, pending=pending)
         I = W.I
         st0 = W.st
         # ghost: RC = still unpaid claims on already released batches of everybody (caller's part explicit)
@@ -282,9 +287,12 @@ def ob_release(k, released_before, cap=None, light=False, real_kernel=False):
             cl.append((z3.Implies(z3.And(inner_b, inner_s), RC_rest + others_new <= e.post['prev_hub_balance']), 'liquid balance still covers all remaining matured claims (H5 preserved)', 'release:solvent'))
             # the caller's entries on released batches are gone
             left = [w for w in st.stores[HUB].entries if w.fam == ('B', b'v2_wait') and w.present is not False and w.key[0][1] == W.user.id]
+            if W.pending is not None:
+                cl.append((len(left) == 1, 'the claim on the open batch survives the withdrawal', 'release:keeps_pending'))
+                left = [w for w in left if not (w.key[1][1] is W.batch_id or (is_sym(w.key[1][1]) and w.key[1][1].eq(W.batch_id)))]
             cl.append((len(left) == 0, 'paid claims are removed (never paid twice)', 'release:removed'))
             if light:
-                cl = [c for c in cl if c[2] in ('release:share', 'release:released', 'release:prev', 'release:last', 'release:msg', 'release:removed')]
+                cl = [c for c in cl if c[2] in ('release:share', 'release:released', 'release:prev', 'release:last', 'release:msg', 'release:removed', 'release:keeps_pending')]
             ctx.require_all(st, cl, W.mv)
             ctx.witness('release of %d batch(es) with slashing' % k, st, [arrived < expected_b + expected_s], W.mv)
             ctx.witness('release of %d batch(es) without slashing' % k, st, [no_slash, expected_b + expected_s > 0], W.mv)
@@ -418,7 +426,8 @@ def ob_twice(ctx):
 
 OBLIGATIONS = [('kernel_from_subtraction', ob_kernel_from_subtraction), ('kernel_uint256_mul_decimal256', ob_kernel_mul),
                ('kernel_new_withdraw_rate', ob_kernel_rate),
-               ('release_k1', ob_release(1, 0, real_kernel=True)), ('release_k1_old1', ob_release(1, 1, real_kernel=True)), ('release_k2', ob_release(2, 0, light=True)),
+               ('release_k1', ob_release(1, 0, real_kernel=True)), ('release_k1_old1', ob_release(1, 1, real_kernel=True)),
+               ('release_k1_pending', ob_release(1, 0, real_kernel=True, pending=True)), ('release_k2', ob_release(2, 0, light=True)),
                ('release_k3', ob_release(3, 0, light=True)), ('order_independence', ob_order_frame), ('paid_once', ob_twice)]
 
 
@@ -583,6 +592,10 @@ def ORACLE(v, scn, out):
                 bad.append('paid claim on batch %d not removed' % b)
     elif what == 'prev' and int(post['items'][b'\x00\x05state']['prev_hub_balance']) != balance - paid:
         bad.append('prev_hub_balance wrong')
+    elif what == 'keeps_pending':
+        for k_ in pre['wait']:
+            if k_[0] == user and k_ not in post['wait'] and not (k_[1] in post['hist'] and post['hist'][k_[1]]['released']):
+                bad.append('claim on unreleased batch %d deleted' % k_[1])
     elif what in ('released', 'last', 'msg', 'panic'):
         return None
     return bad
